@@ -73,6 +73,18 @@ def summarize (rs : List (Test × Verdict × Bool)) : Summary :=
   { passed := count .passed rs, failed := f, skipped := count .skipped rs, xfailed := count .xfailed rs,
     xpassed := xp, exitOk := !(f > 0 || xp > 0) }
 
+/-- Discovery over several files: the per-file results are concatenated in file order; a test is identified by its
+file *and* its name. -/
+def collect (files : List (String × List Test)) : List (String × Test) :=
+  files.flatMap fun f => f.2.map fun t => (f.1, t)
+
+/-- The seeded variant (C16-5) that keeps only the first test of each function name. -/
+def firstOfNameGo : List (String × Test) → List String → List (String × Test)
+  | [], _ => []
+  | x :: rest, seen => if seen.contains x.2.name then firstOfNameGo rest seen else x :: firstOfNameGo rest (x.2.name :: seen)
+
+def collectFirstOfName (l : List (String × Test)) : List (String × Test) := firstOfNameGo l []
+
 def runTests (filter : Option String) (includeSlow stopOnFail : Bool) (tests : List Test) :
     List (Test × Verdict × Bool) × Summary :=
   let rs := runLoop stopOnFail (tests.filter (selected filter includeSlow))
